@@ -362,6 +362,20 @@ def check_output(tree, root, o, rc, out, err):
         if rc == 0:
             return "s2t-opt:no-skip-ignored", "--no-skip: sqfs2tar exits 0 although a selected socket cannot be stored"
         return None
+    # entries on the way to a selection that does not exist are [optional] (the manual says nothing about them: false alarm of the
+    # thorough tier, session 3: `--subdir file/nope`, `--subdir socket/nope --no-skip`).  What is unspecified for the entry is
+    # unspecified for everything that follows from emitting it: a socket among them may make --no-skip abort, a second name of
+    # an emitted inode among them changes the hard link records.
+    rb_pre = ""
+    if o.get("root") is not None:
+        rb_pre = ("." if o["root"] in (".", "./") else "/".join(comps(o["root"]))) + "/"
+    opt_nodes = {}
+    for q in optional:
+        k = q[len(rb_pre):] if rb_pre and q.startswith(rb_pre) else q
+        if k in tree:
+            opt_nodes[q] = tree[k]
+    if rc != 0 and o.get("no_skip") and any(n["type"] == "sock" for n in opt_nodes.values()):
+        return None
     if rc != 0:
         return "s2t-opt:convert-fails", "sqfs2tar fails (status %d): %s" % (rc, err.strip()[-300:])
     if len(out) % 512:
@@ -401,6 +415,13 @@ def check_output(tree, root, o, rc, out, err):
     if o.get("no_links") and obs_groups:
         return "s2t-opt:no-hard-links-ignored", "--no-hard-links: the archive holds hard link records: %s" % short(obs_groups)
     exp_groups = {p: g for p, g in groups.items() if p in got}
+    emitted_opt_inos = set(n["ino"] for q, n in opt_nodes.items() if q in got and n["type"] != "dir")
+    if emitted_opt_inos:
+        # an unspecified entry was emitted and shares an inode with selected entries: compare the groups without that inode
+        skip = set(p for p in set(obs_groups) | set(exp_groups)
+                   if (p in exp and exp[p].get("ino") in emitted_opt_inos) or p in opt_nodes)
+        obs_groups = {p: g for p, g in obs_groups.items() if p not in skip}
+        exp_groups = {p: g for p, g in exp_groups.items() if p not in skip}
     if obs_groups != exp_groups:
         bad = [p for p in sorted(set(obs_groups) | set(exp_groups)) if obs_groups.get(p) != exp_groups.get(p)]
         return "s2t-opt:link-groups", "names of one inode among the emitted entries: %r expected %s, archive has %s" % (
